@@ -47,4 +47,24 @@ CHECKS["C14"] = (
     "recorded hashes whether any buffer other than the sanctioned out=/in-place target changed; in addition every "
     "generated Pipeline and Concat behaviour snapshots all inputs before/after each call.",
     TB, "DESIGN.md §4 C14")
+CHECKS["C17"] = (
+    "TLA+ model (Ufunc.tla) of NumPy's __array_ufunc__ override resolution and of Signal.__array_ufunc__ / __array__, "
+    "model-checked by TLC; every generated operand arrangement replayed on the real classes with all of NumPy's ufuncs; "
+    "traced real calls validated by TLC (Trace_Ufunc.tla)",
+    "TLC exhaustively checks nine clauses (wrap as the resolved signal, out is returned / keeps its metadata, refusals, "
+    "dtype contract, asarray is data ...) over all arrangements of up to 3 (4 thorough) operands from six classes, arrays, "
+    "scalars, Quantities and dask arrays, all methods and out forms and in-place chains of length 3, and rejects seven "
+    "wrong-handler models. Conformance: ~7k (quick) / ~62k (thorough) replays and traced events across 98 ufuncs, NumPy and "
+    "Dask data, compared bitwise with the raw-array result.",
+    TB + " NumPy is the value oracle on raw arrays (the property defines the result that way).", "DESIGN.md §4 C17")
+CHECKS["C09"] = (
+    "TLA+ specification of Dask-backed signals (Dask.tla: chunk grids, per-operation task-graph rules, symbolic per-sample "
+    "values, nondeterministic task execution) model-checked by TLC; TLC-generated pipelines, chunk layouts and schedules "
+    "replayed on sentinel-instrumented Dask arrays; TLC trace validation (Trace_Dask.tla) of every public call",
+    "TLC exhaustively checks Lazy, StaysDask, ContainerOnly, SameAsNumpy and OrderIndependent for every chunk grid of "
+    "small arrays (<= 12 tasks), depth-2 pipelines over 39 operation instances and every order of task execution, and "
+    "rejects four wrong models. The real code is compared with the NumPy-backed result (bitwise; <= 1e-6 relative for "
+    "FFT-based operations) under the synchronous, threaded, process and TLC-forced schedules; laziness and container-only "
+    "clauses are decided by TLC on recorded events from replays, drivers, readers and the repository's tests.",
+    TB + " Dask schedulers are libraries; the sentinel counter sees in-process execution only.", "DESIGN.md §4 C09")
 NA = {}
